@@ -91,6 +91,7 @@ def theorem_at(path, line):
 
 
 def step_lake(targets):
+    run([sys.executable, os.path.join(HERE, "genlean.py")])
     with Lock("lake"):
         rc, out = run(["lake", "build"] + targets, cwd=LEAN, timeout=3000)
     return rc, out
